@@ -22,7 +22,72 @@ def obligations(tier):
             if tier == "thorough":
                 n += 1
             obs.append(Ob(f"{spec_name((kind, name, kw))}/tf={tf}/n={n}", dict(spec=[kind, name, kw], fields=fields, tf=tf, n=n), CFG, weight=n * 3, budget_s=900, max_paths=100000))
+    # the same agreement at every point of a live history (open-bucket merges at constant length, lifespan trimming,
+    # recalculation): an accessor that answers from remembered state goes stale exactly there
+    for kind, name, kw, fields in SPECS[:4] + SPECS[7:8]:
+        for mode in ("T2", "lifespan", "maintenance"):
+            n = 6 if tier == "quick" else 8
+            obs.append(Ob(f"live/{mode}/{spec_name((kind, name, kw))}/n={n}", dict(spec=[kind, name, kw], fields=fields, mode=mode, n=n), CFG, fn="run_live", weight=n * 4, budget_s=600, max_paths=100000))
     return obs
+
+
+def agree(ctx, label, ind, hx, names):
+    cds = ind.candles
+    name = ind.name
+    for nm in names:
+        short = nm.replace(name, "X")
+        direct = []
+        for c in cds:
+            d = c.indicators.get(name)
+            if "." in nm:
+                d = d.get(nm.split(".")[1]) if isinstance(d, dict) else d
+            direct.append(d)
+        ctx.equal(f"{label}: as_list==direct[{short}]", ind.as_list(nm), direct)
+        ctx.equal(f"{label}: Hexital.reading_as_list==direct[{short}]", hx.reading_as_list(nm), direct)
+        if direct:
+            ctx.equal(f"{label}: reading()==direct[-1][{short}]", ind.reading(nm), direct[-1])
+            ctx.equal(f"{label}: Hexital.reading==direct[-1][{short}]", hx.reading(nm), direct[-1])
+            ctx.equal(f"{label}: reading(0)==direct[0][{short}]", ind.reading(nm, index=0), direct[0])
+            ctx.require(f"{label}: Hexital.has_reading[{short}]", hx.has_reading(nm) == (direct[-1] is not None))
+            trailing = 0
+            for v in reversed(direct):
+                if v is None:
+                    break
+                trailing += 1
+            ctx.require(f"{label}: reading_count[{short}]", ind.reading_count(nm) == trailing, f"{ind.reading_count(nm)} vs {trailing}")
+        if len(direct) >= 2:
+            ctx.equal(f"{label}: prev_reading==direct[-2][{short}]", ind.prev_reading(nm), direct[-2])
+            ctx.equal(f"{label}: Hexital.prev_reading==direct[-2][{short}]", hx.prev_reading(nm), direct[-2])
+
+
+def run_live(ctx, P):
+    from datetime import timedelta
+    _, _, Candle, _, Hexital = lib()
+    spec = tuple(P["spec"])
+    n, mode, fields = P["n"], P["mode"], P["fields"]
+    cs = mk_candles(ctx, n)
+    extra, hkw = {}, {}
+    if mode == "T2":
+        extra = dict(timeframe="T2")
+    if mode == "lifespan":
+        hkw = dict(candles_lifespan=timedelta(minutes=2))
+    ind = build_any(spec, **extra)
+    hx = Hexital("hx", [], [ind, build("EMA", dict(period=3))], **hkw)
+    names = [ind.name] + [f"{ind.name}.{f}" for f in (fields or [])]
+    src = clone(cs)
+    for k, c in enumerate(src):
+        hx.append(c)
+        agree(ctx, f"after append {k + 1}", ind, hx, names)
+        if mode == "maintenance" and k == n - 2:
+            hx.purge(ind.name)
+            agree(ctx, "after purge", ind, hx, names)
+            hx.calculate()
+            agree(ctx, "after purge+calculate", ind, hx, names)
+            hx.recalculate()
+            agree(ctx, "after recalculate", ind, hx, names)
+            hx.calculate_index(ind.name, -1)
+            agree(ctx, "after calculate_index(-1)", ind, hx, names)
+    ctx.observe("final", ind.as_list())
 
 
 def same_leaf(ctx, label, a, b):
@@ -73,7 +138,7 @@ def run(ctx, P):
 
 
 META = dict(
-    bounds=dict(quick="10 indicator kinds (scalar, dict-valued with dotted fields, bool- and int-valued, ones that legitimately read 0/False) on the base timeframe (n=5) and on T2 inside a Hexital with a second indicator (n=8); every index in [-N, N-1]",
+    bounds=dict(quick="10 indicator kinds (scalar, dict-valued with dotted fields, bool- and int-valued, ones that legitimately read 0/False) on the base timeframe (n=5) and on T2 inside a Hexital with a second indicator (n=8); every index in [-N, N-1]; plus live histories (one-by-one appends on T2, under a 2-minute lifespan, and with purge / calculate / recalculate / calculate_index in between) with the accessors compared after every step",
                 thorough="n+1"),
     stubs=["exact real arithmetic, eps rounding (a reading can be exactly 0)", "uninterpreted products"],
     assumptions=[],
